@@ -594,3 +594,191 @@ func (p *Program) src(e ast.Expr) string {
 	printer.Fprint(&b, p.Fset, e)
 	return strings.Join(strings.Fields(b.String()), " ")
 }
+
+// ruleCollectionWithin (C10): a collection is within X iff it is non-empty and
+// every child is within X.  The code counts the children that Search reports
+// and that are within X, and compares the count with len(children) — so an
+// empty child (never reported by Search) makes the collection within nothing.
+// Two rows per method: the function around the search (Search kept opaque, the
+// variables its callback writes are fresh atoms afterwards) and the callback
+// itself (one child, both verdicts).
+func (p *Program) ruleCollectionWithin(c *Check) {
+	search := p.Method("geojson", "collection", "Search")
+	empty := p.Method("geojson", "collection", "Empty")
+	n := 0
+	for _, m := range []string{"WithinRect", "WithinPoint", "WithinLine", "WithinPoly"} {
+		fn := p.Method("geojson", "collection", m)
+		fd, pkg := p.Decl(fn), p.DeclPkg(fn)
+		name := "(*geojson.collection)." + m
+		if fd == nil || search == nil || empty == nil {
+			c.Undecided("E10.within", name, "", "method (or collection.Search/Empty) not found")
+			continue
+		}
+		n++
+		info := pkg.TypesInfo
+		method := m
+		opq := map[*types.Func]bool{search: true, empty: true}
+		for _, tm := range [][2]string{{"Point", "Rect"}, {"baseSeries", "Rect"}, {"Poly", "Rect"}, {"Line", "Rect"}, {"Rect", "Rect"}} {
+			if f := p.Method("geometry", tm[0], tm[1]); f != nil {
+				opq[f] = true
+			}
+		}
+		p.runE8(c, &e8row{id: name + "#count", fn: fn, havoc: true, opaque: opq, opaquePkg: map[*types.Package]bool{p.Geom.Types: true},
+			what: "false for an empty collection; otherwise true exactly when the number of children counted by the search callback equals len(children); the search rectangle is the operand's rectangle",
+			spec: func(a *e8assign, nm *e8names, out *e8out) string {
+				got, ok := retBool(out)
+				if !ok {
+					return "no boolean result"
+				}
+				eName := firstBool(nm, reEmpty)
+				if eName == "" {
+					return "the collection's emptiness is not consulted"
+				}
+				if a.B(eName) {
+					if got {
+						return "an empty collection is reported to be within something"
+					}
+					return ""
+				}
+				calls := out.in.called("Search")
+				if len(calls) == 0 {
+					// an early rejection (e.g. by bounding rectangles) is not judged here; an early acceptance is wrong
+					if got {
+						return "accepts without counting the children: children the search never reports (empty ones) are not accounted for"
+					}
+					return ""
+				}
+				if len(calls) != 1 {
+					return fmt.Sprintf("the children are searched %d times (expected once)", len(calls))
+				}
+				if len(calls[0].args) < 2 || calls[0].args[1] == nil || !(calls[0].args[1].name == "p0" || strings.HasPrefix(calls[0].args[1].name, "Rect(p0")) {
+					return "the search rectangle is not the operand's rectangle"
+				}
+				var counter, length string
+				for _, s := range nm.scalars {
+					if strings.HasSuffix(s, "'") {
+						counter = s
+					}
+					if strings.HasPrefix(s, "len(") && strings.Contains(s, "children") {
+						length = s
+					}
+				}
+				if counter == "" || length == "" {
+					return "the result does not compare a counter maintained by the search callback with len(children): children the search never reports (empty ones) are not accounted for"
+				}
+				if want := a.R(counter) == a.R(length); got != want {
+					return fmt.Sprintf("returns %v when the counted children %s len(children)", got, map[bool]string{true: "equal", false: "differ from"}[want])
+				}
+				return ""
+			}})
+		// the callback handed to Search (in the method or a same-package helper it calls)
+		var lit *ast.FuncLit
+		var find func(body *ast.BlockStmt, depth int)
+		find = func(body *ast.BlockStmt, depth int) {
+			ast.Inspect(body, func(nd ast.Node) bool {
+				call, ok := nd.(*ast.CallExpr)
+				if !ok || lit != nil {
+					return true
+				}
+				callee, _ := typeutil.Callee(info, call).(*types.Func)
+				if callee == search {
+					for _, ar := range call.Args {
+						if l, ok := ast.Unparen(ar).(*ast.FuncLit); ok {
+							lit = l
+						}
+					}
+				} else if callee != nil && callee.Pkg() == fn.Pkg() && depth < 2 {
+					if hd := p.Decl(callee); hd != nil && hd.Body != nil {
+						find(hd.Body, depth+1)
+					}
+				}
+				return true
+			})
+		}
+		find(fd.Body, 0)
+		if lit == nil {
+			c.Undecided("E10.within", name+"#step", p.declPos(fn), "the callback handed to Search was not found")
+			continue
+		}
+		var counterName string
+		ast.Inspect(lit.Body, func(nd ast.Node) bool {
+			switch st := nd.(type) {
+			case *ast.IncDecStmt:
+				if id, ok := st.X.(*ast.Ident); ok {
+					counterName = id.Name
+				}
+			case *ast.AssignStmt:
+				if id, ok := st.Lhs[0].(*ast.Ident); ok && len(st.Lhs) == 1 && st.Tok != token.DEFINE {
+					if b, ok := info.TypeOf(id).Underlying().(*types.Basic); ok && b.Info()&types.IsInteger != 0 {
+						counterName = id.Name
+					}
+				}
+			}
+			return true
+		})
+		thelit := lit
+		p.runE8(c, &e8row{id: name + "#step", fn: fn,
+			what: "per reported child: counted (and the search continues) exactly when the child is " + method + " the operand",
+			run: func(in *e8interp) *e8out {
+				fr := newFrame(pkg)
+				i := 0
+				for _, f := range thelit.Type.Params.List {
+					for _, nm := range f.Names {
+						if o := info.Defs[nm]; o != nil {
+							fr.vars[o] = in.newInput(fmt.Sprintf("q%d", i), o.Type())
+						}
+						i++
+					}
+				}
+				out := &e8out{fr: fr}
+				if r := in.runBody(fr, thelit.Body.List); r != nil {
+					out.returned, out.ret = true, r.vals
+				}
+				return out
+			},
+			spec: func(a *e8assign, nm *e8names, out *e8out) string {
+				var w []string
+				for _, b := range nm.bools {
+					if strings.Contains(b, "(") {
+						w = append(w, b)
+					}
+				}
+				if len(w) != 1 {
+					return fmt.Sprintf("the callback consults %d verdicts about the child (expected exactly one: is the child within the operand)", len(w))
+				}
+				if !strings.HasPrefix(w[0], method+"(") && !strings.Contains(w[0], "."+method+"(") {
+					// a predicate parameter of a shared helper: the method must hand it its own verdict
+					uses := mentions(fd.Body, func(nd ast.Node) bool {
+						sel, ok := nd.(*ast.SelectorExpr)
+						return ok && sel.Sel.Name == method
+					})
+					if !uses {
+						return "the verdict asked of the child is not " + method
+					}
+				} else if !strings.Contains(w[0], "q0") {
+					return "the verdict is not asked of the reported child"
+				}
+				got, ok := retBool(out)
+				if !ok {
+					return "the callback does not return a boolean"
+				}
+				var counter *val
+				for o, v := range out.fr.vars {
+					if o != nil && o.Name() == counterName {
+						counter = v
+					}
+				}
+				counted := counter != nil && counter.k == kScalar && counter.name == "("+counterName+"+1)"
+				unchanged := counter == nil || (counter.k == kScalar && counter.name == counterName)
+				if a.B(w[0]) {
+					if !counted || !got {
+						return "a child that is within the operand is not counted (or the search stops)"
+					}
+				} else if !unchanged {
+					return "a child that is not within the operand is counted"
+				}
+				return ""
+			}})
+	}
+	c.Floor("E10.within", n, 4, "Within* methods of collection")
+}
